@@ -22,7 +22,7 @@ def units(tier):
 
 
 def run_bytes_literals(res):
-    """Literal types with bytes members (excluded from the term sets because bytes never reach the JSON checks)."""
+    """Literal types with bytes members (excluded from the term sets because bytes never reach the JSON checks), compiled patterns, bytes enumerations, nested self-referential classes."""
     import typing
 
     import typelib
@@ -56,6 +56,20 @@ def run_bytes_literals(res):
         (typing.Optional[EBytes], members + [None]),
         (dict[EBytes, int], [{m: i for i, m in enumerate(members)}]),
         (tuple[EBytes, str], [(EBytes.G, "x")]),
+    ]
+    # a self-referential class NESTED in a class, next to a module-level class that shares its short name
+    from ..universe import prelude
+
+    nm = prelude.mkmod("tlg_c13_nested", "import dataclasses, typing\nclass Tree:\n    @dataclasses.dataclass\n    class Node:\n        val: str\n        kids: list['Tree.Node'] = dataclasses.field(default_factory=list)\n"
+                                         "        nxt: typing.Optional['Tree.Node'] = None\n@dataclasses.dataclass\nclass Node:\n    val: str = ''\n    nxt: typing.Optional['Node'] = None\n"
+                                         "@dataclasses.dataclass\nclass Forest:\n    trees: dict[str, Tree.Node]\n    first: Node\n").__dict__
+    TN, MN, FO = nm["Tree"].Node, nm["Node"], nm["Forest"]
+    deep = TN("1", kids=[TN("2", kids=[TN("null")]), TN("3")], nxt=TN("4"))
+    cases += [
+        (TN, [deep, TN("x")]),
+        (list[TN], [[deep], []]),
+        (FO, [FO({"a": deep}, MN("m", MN("n")))]),
+        (typing.Optional[MN], [MN("m", MN("n")), None]),
     ]
     for T_, vals in cases:
         cold.clear_all()
